@@ -52,18 +52,24 @@ def main():
                        and confirmed.get("demo_patched_exit") == 1 and confirmed.get("demo_clean_exit") == 0)
     results = {}
     if confirmed["ok"]:
-        assert sh("git -C /repo status --porcelain").stdout.strip() == "", "/repo not clean"
+        # run the checks against a scratch worktree with the patch applied (MSMART_REPO), so that /repo itself -
+        # which background runs may be reading - is never modified; equivalent to apply / run / undo on /repo
+        wt2 = tempfile.mkdtemp(prefix="evalwt_")
+        os.rmdir(wt2)
         try:
-            r = sh(f"git -C /repo apply {patch}")
+            sh(f"git -C /repo worktree add -q --detach {wt2} HEAD")
+            r = sh(f"git -C {wt2} apply {patch}")
             assert r.returncode == 0, r.stderr
+            env = dict(os.environ)
+            env["MSMART_REPO"] = wt2
             for c in checks:
-                r = sh(f"cd {VERIF} && ./check {c} --tier {tier} --no-evidence")
+                r = sh(f"cd {VERIF} && ./check {c} --tier {tier} --no-evidence", env=env)
                 sig = [l for l in r.stdout.splitlines() if l.startswith("signature:")]
                 results[c] = {"exit": r.returncode, "signature": sig[0][11:].strip() if sig else None,
                               "summary": r.stdout.strip().splitlines()[-1][:200] if r.stdout.strip() else r.stderr[-200:]}
         finally:
-            sh("git -C /repo checkout -- .")
-            assert sh("git -C /repo status --porcelain").stdout.strip() == "", "/repo not clean after undo"
+            sh(f"git -C /repo worktree remove --force {wt2}")
+            shutil.rmtree(wt2, ignore_errors=True)
     meta["confirmed_by_us"] = confirmed
     meta["checks_run"] = results
     meta["caught_by"] = [c for c, v in results.items() if v["exit"] == 1]
